@@ -12,7 +12,7 @@ COMMON_ASSUMPTIONS = [
 PROPS = {}
 NOT_APPLICABLE = {}
 # properties whose check has been reviewed, soaked over several seeds and self-tested; only these are claimed in MANIFEST.json
-READY = ['C01', 'C02', 'C03', 'C04', 'C05', 'C06', 'C07', 'C08', 'C09', 'C10', 'C11', 'C13', 'C14', 'C15', 'C16', 'C17', 'C18', 'C19', 'C20']
+READY = ['C01', 'C02', 'C03', 'C04', 'C05', 'C06', 'C07', 'C08', 'C09', 'C10', 'C11', 'C12', 'C13', 'C14', 'C15', 'C16', 'C17', 'C18', 'C19', 'C20']
 
 PROPS['C19'] = dict(
     harness=['h_int.c', 'h_int_ext.c'],
